@@ -56,5 +56,6 @@ def run(ctx, rep):
     NR.float_window(rep, lib)
     NR.float_ctor(rep, lib)
     NR.float_conv(rep, ctx)
+    NR.num_eq(rep, ctx, rid="C19-NUM-EQ", integers_only=True)
     NR.print_direct(rep, lib)
     nas_float_free(rep, ctx)
